@@ -376,36 +376,23 @@ func c10AllImports(r *an.Run) {
 
 func c10FakePackage(r *an.Run) {
 	r.Rule("R5-fake-package-ignored")
-	f := fn(r, pgoRel, "Parse")
-	if f == nil {
+	anchor := fn(r, pgoRel, "Parse")
+	if anchor == nil {
 		return
 	}
-	n := 0
-	anchor := f
-	var stores []ssa.Instruction
-	for _, g := range helperGroup(anchor, 2) {
-		stores = append(stores, an.StoresIn(g)...)
+	// clearing points: a store of "" into File.Package, or the edge on which "" flows into the value that
+	// is stored there. Each must be reachable, and unreachable when the first augmentation is NOT the fake
+	// package clause (hypothesis: the comma-ok of augs[0].(*augment.FakePackage) is false).
+	type point struct {
+		blk *ssa.BasicBlock
+		pos token.Pos
 	}
-	for _, in := range stores {
-		st, ok := in.(*ssa.Store)
-		if !ok {
-			continue
-		}
-		fa, ok := st.Addr.(*ssa.FieldAddr)
-		if !ok || fieldNameOf(fa) != "Package" || !isPgoFile(fa.X.Type()) {
-			continue
-		}
-		s, isc := an.ConstString(st.Val)
-		if !isc || s != "" {
-			continue
-		}
-		n++
-		f := st.Parent() // the clearing may live in a helper of Parse
-		// reachable only under `augs[0].(*augment.FakePackage)` ok
-		guarded := false
+	n := 0
+	for _, f := range helperGroup(anchor, 2) {
+		var fakeOK []ssa.Value
 		for _, b := range f.Blocks {
-			for _, in2 := range b.Instrs {
-				ta, ok := in2.(*ssa.TypeAssert)
+			for _, in := range b.Instrs {
+				ta, ok := in.(*ssa.TypeAssert)
 				if !ok || !ta.CommaOk || !strings.HasSuffix(an.ShortType(ta.AssertedType), "augment.FakePackage") {
 					continue
 				}
@@ -417,14 +404,58 @@ func c10FakePackage(r *an.Run) {
 						}
 					}
 				}
-				for _, ex := range an.ExtractOf(ta, 1) {
-					if firstAug && unreachableWithout(st.Block(), edgesWhen(an.BranchesOn(f, ex), true)) {
-						guarded = true
+				if firstAug {
+					for _, ex := range an.ExtractOf(ta, 1) {
+						fakeOK = append(fakeOK, ex)
 					}
 				}
 			}
 		}
-		r.Check(guarded, short(f)+"|clear-package", st.Pos(), "the parsed package name is discarded exactly when the first augmentation is the fake package clause gopatch added itself")
+		var points []point
+		for _, in := range an.StoresIn(f) {
+			st, ok := in.(*ssa.Store)
+			if !ok {
+				continue
+			}
+			fa, ok := st.Addr.(*ssa.FieldAddr)
+			if !ok || fieldNameOf(fa) != "Package" || !isPgoFile(fa.X.Type()) {
+				continue
+			}
+			if s, isc := an.ConstString(st.Val); isc && s == "" {
+				points = append(points, point{st.Block(), st.Pos()})
+				continue
+			}
+			// "" arriving through a phi
+			var walk func(v ssa.Value, seen map[ssa.Value]bool)
+			walk = func(v ssa.Value, seen map[ssa.Value]bool) {
+				phi, ok := v.(*ssa.Phi)
+				if !ok || seen[v] {
+					return
+				}
+				seen[v] = true
+				for i, e := range phi.Edges {
+					if s, isc := an.ConstString(e); isc && s == "" {
+						points = append(points, point{phi.Block().Preds[i], phi.Pos()})
+					}
+					walk(e, seen)
+				}
+			}
+			walk(st.Val, map[ssa.Value]bool{})
+		}
+		for _, pt := range points {
+			n++
+			notFake := func(v ssa.Value) (bool, bool) {
+				for _, ex := range fakeOK {
+					if v == ex {
+						return false, true
+					}
+				}
+				return false, false
+			}
+			reachable := an.Reach([]*ssa.BasicBlock{f.Blocks[0]}, nil)[pt.blk]
+			guarded := len(fakeOK) > 0 && !an.ReachUnder(f.Blocks[0], notFake, nil)[pt.blk]
+			r.Check(reachable && guarded, short(f)+"|clear-package", pt.pos, "the parsed package name is discarded exactly when the first augmentation is the fake package clause gopatch added itself")
+		}
 	}
 	r.Check(n == 1, short(anchor)+"|clears", anchor.Pos(), "pgo.Parse has one place that clears the package name (found %d)", n)
 }
